@@ -161,7 +161,7 @@ class Net:
     # ------------------------------------------------------------------ faults
     def fault(self, f):
         kind = f["kind"]
-        self.emit(k="in", op="fault", kind=kind, node=f.get("node", ""))
+        self.emit(k="in", op="fault", kind=kind, node=f.get("node", ""), **({"d": f["d"]} if "d" in f else {}))
         if kind == "crash":
             n = self.nodes.pop(f["node"], None)
             if n:
